@@ -3,6 +3,9 @@
 // The extracted Coq model (extract/driver) reads these lines and reports disagreements.
 mod fam_lex;
 mod fam_pk;
+mod fam_sema;
+mod fam_semt;
+mod sema;
 mod fam_tree;
 mod fam_symtab;
 mod fam_types;
@@ -21,6 +24,8 @@ fn main() {
         "lex" => fam_lex::run(rest),
         "pk" => fam_pk::run(rest),
         "tree" => fam_tree::run(rest),
+        "sema" => fam_sema::run(rest),
+        "semt" => fam_semt::run(rest),
         f => {
             eprintln!("unknown family {f}");
             std::process::exit(2);
